@@ -1,11 +1,11 @@
 (* C18 — resource store: version CAS, stable UIDs, ordered watches.
-   Theorems only; each is closed by a lemma of Resource/{CasProofs,WatchProofs,Refute}.v.
+   Theorems only; each is closed by a lemma of Resource/{CasProofs,WatchProofs,Examples}.v.
    Model: Resource/Model.v (inmem.Store/Backend + the part of agent/consul/stream the watches ride on).
    [run st ops] executes a schedule; [step st o] returns (state, output);
    [lk k st] is the stored row of id k; [glog st ops] the commits of a run (read off the outputs of the
    successful writes and deletes), [deliv n st ops] what watch n returned from Next. *)
 From Verif Require Import Base.Prelude Resource.Model Resource.TableProofs Resource.CasProofs
-     Resource.WatchDefs Resource.WatchProofs Resource.Refute.
+     Resource.WatchDefs Resource.WatchProofs Resource.Examples.
 Local Open Scope N_scope.
 
 (* ---- version CAS: of any writes presenting the same version for the same id at most one succeeds.
@@ -65,49 +65,52 @@ Theorem C18_stale_uid_powerless : forall st k r_new uid,
   (forall v, step st (ODelete k uid v) = (st, OutOk)).
 Proof. exact stale_uid_powerless. Qed.
 
-(* ---- watches.  The full statement — for ALL schedules, restore included, a watch is given the full
-   match set of some state at or before its open, end-of-snapshot, then exactly the matching commits
-   that follow, in commit order, none twice, none skipped — is FALSE of the faithful model (and of the
-   code): after a restore, batches of the previous epoch that are still queued in publishCh reach new
-   watches, and new commits are filtered out because the restore resets the event index.  (The second
-   way, a topic buffer kept alive by an unreleased watch, was repaired upstream of this check by 2bf672d.) *)
-Theorem C18_watch_complete_ordered_refuted :
-  let st1 := after_restore pre_a in
-  let ops := OWatch xq :: post_a in
-  forallb no_restore ops = true /\ s_res st1 = [] /\
-  forall Lp La rest, glog st1 ops = Lp ++ La ->
-    deliv (List.length (s_watches st1)) st1 ops ++ rest <> ideal xq (replay (s_res st1) Lp) La.
-Proof. exact stale_event_after_restore. Qed.
-
-Theorem C18_watch_complete_ordered_refuted_skip :
-  let st1 := after_restore pre_b in
-  let ops := OWatch xq :: post_b in
-  forallb no_restore ops = true /\
-  s_queue (run st1 ops) = [] /\ snd (step (run st1 ops) (ONext 1)) = OutNoEvent /\
-  In (Upsert (xres [98] [117;50] 2 2)) (map snd (glog st1 ops)) /\
-  ~ In (Upsert (xres [98] [117;50] 2 2)) (deliv 1 st1 ops) /\
-  In (Upsert (xres [97] [117;49] 1 1)) (deliv 1 st1 ops) /\ lk (xk [97]) (run st1 ops) = None.
-Proof. exact skipped_event_after_restore. Qed.
-
-(* It holds — for ALL schedules of commits, publications, opens, nexts, closes and cache evictions,
-   in particular for a watch opened while commits are queued but unpublished (the repaired finding 13) —
-   on every restore-free run from a clean state (the initial state, or the state right after any restore
-   that found nothing queued, C18_restore_clean):
-   the events watch n returned are a prefix of [ideal q T la] = the full match set of the table T
-   at a snapshot point Lp that is a prefix of the commit log not later than the open, end-of-snapshot,
-   then the matching commits after that point in commit order; and when nothing is queued and Next
-   would block, the watch has been given all of it. *)
-Theorem C18_watch_complete_ordered_partial : forall st0 pre q post,
-  clean st0 -> forallb no_restore (pre ++ OWatch q :: post) = true ->
-  let ops := pre ++ OWatch q :: post in
+(* ---- watches, for ALL schedules of commits, publications, opens, nexts, closes, cache evictions and
+   restores.  A schedule is a sequence of epochs separated by restores; every restore leaves a clean
+   state (C18_restore_clean: Restoration.Commit makes the publisher drop whatever is still queued, the
+   topic buffers and the cached snapshots, and closes the watches), and so is the initial state.
+   For the watch opened by [OWatch q] in the restore-free stretch [pre ++ OWatch q :: mid] of an epoch
+   that starts in the clean state st0, and for ANY continuation [post] (nothing, or the next restore
+   followed by arbitrary operations, further restores included):
+   the events the watch returns over the whole schedule are a prefix of [ideal q T La] = the full match
+   set of the table T at a snapshot point Lp (a prefix of the epoch's commit log, not later than the
+   open), end-of-snapshot, then exactly the matching commits of the epoch after that point, in commit
+   order, none twice, none skipped - in particular for a watch opened while commits are queued but
+   unpublished (finding 13) and for a watch opened right after a restore that found batches queued or
+   old watches unreleased (the former restore-residue finding); and while the epoch lasts, when nothing
+   is queued and Next would block, the watch has been given all of it. *)
+Theorem C18_watch_complete_ordered : forall st0 pre q mid post,
+  clean st0 -> forallb no_restore (pre ++ OWatch q :: mid) = true ->
+  (post = [] \/ exists l post', post = ORestore l :: post') ->
+  let ops1 := pre ++ OWatch q :: mid in
   let n := List.length (s_watches (run st0 pre)) in
   snd (step (run st0 pre) (OWatch q)) = OutWatch n /\
   exists Lp La,
-    glog st0 ops = Lp ++ La /\ (List.length Lp <= List.length (glog st0 pre))%nat /\
-    (exists rest, deliv n st0 ops ++ rest = ideal q (replay (s_res st0) Lp) La) /\
-    (s_queue (run st0 ops) = [] -> snd (step (run st0 ops) (ONext n)) = OutNoEvent ->
-     deliv n st0 ops = ideal q (replay (s_res st0) Lp) La).
-Proof. exact watch_complete_ordered. Qed.
+    glog st0 ops1 = Lp ++ La /\ (List.length Lp <= List.length (glog st0 pre))%nat /\
+    (exists rest, deliv n st0 (ops1 ++ post) ++ rest = ideal q (replay (s_res st0) Lp) La) /\
+    (s_queue (run st0 ops1) = [] -> snd (step (run st0 ops1) (ONext n)) = OutNoEvent ->
+     deliv n st0 ops1 = ideal q (replay (s_res st0) Lp) La).
+Proof. exact watch_complete_ordered_all. Qed.
+
+Theorem C18_restore_clean : forall st l, clean (fst (step st (ORestore l))).
+Proof. exact restore_clean. Qed.
+
+(* the same, spelled out for an arbitrary schedule from the initial state: [a] is anything, restores included *)
+Theorem C18_watch_complete_ordered_from_init : forall a l pre q mid post,
+  forallb no_restore (pre ++ OWatch q :: mid) = true ->
+  (post = [] \/ exists l' post', post = ORestore l' :: post') ->
+  let st0 := fst (step (run init a) (ORestore l)) in
+  let ops1 := pre ++ OWatch q :: mid in
+  let n := List.length (s_watches (run st0 pre)) in
+  exists Lp La,
+    glog st0 ops1 = Lp ++ La /\ (List.length Lp <= List.length (glog st0 pre))%nat /\
+    (exists rest, deliv n st0 (ops1 ++ post) ++ rest = ideal q (replay (s_res st0) Lp) La) /\
+    (s_queue (run st0 ops1) = [] -> snd (step (run st0 ops1) (ONext n)) = OutNoEvent ->
+     deliv n st0 ops1 = ideal q (replay (s_res st0) Lp) La).
+Proof.
+  intros a l pre q mid post H1 H2.
+  exact (proj2 (watch_complete_ordered_all _ pre q mid post (restore_clean (run init a) l) H1 H2)).
+Qed.
 
 (* every event a watch returns was committed earlier in the run (or is a row of the starting state) *)
 Theorem C18_delivered_committed : forall st0 ops n e,
@@ -141,16 +144,22 @@ Theorem C18_read_after_event : forall st0 a n e b gv,
   end.
 Proof. exact read_after_event. Qed.
 
-(* ---- the hypotheses are met: by the initial state, by a state after a restore once the old watch
-   is released, and the watch theorem speaks about non-empty deliveries. *)
+(* ---- the hypotheses are met (clean: the initial state and the state after every restore), the former
+   counterexamples now behave, and the watch theorem speaks about non-empty deliveries. *)
 Example C18_clean_init : clean init.
 Proof. exact clean_init. Qed.
 Example C18_vb_init : vb init /\ NoDup (keys (s_res init)).
 Proof. split; [exact init_vb|constructor]. Qed.
-Theorem C18_restore_clean : forall st l, s_queue st = [] -> clean (fst (step st (ORestore l))).
-Proof. exact restore_clean. Qed.
-Example C18_clean_after_restore : clean (after_restore [OWatch xq; OWrite (xres [97] [117;49] 0 1); OPublish]).
-Proof. exact clean_after_restore. Qed.
+Example C18_restore_drops_queued_batch :
+  deliv 0 (after_restore pre_a) (OWatch xq :: post_a) = [EndOfSnapshot] /\
+  outs (after_restore pre_a) (OWatch xq :: post_a)
+    = [OutWatch 0; OutEvent EndOfSnapshot; OutNoEvent; OutBool true; OutNoEvent].
+Proof. exact queued_batch_dropped. Qed.
+Example C18_restore_then_commit_delivered :
+  deliv 1 (after_restore pre_b) (OWatch xq :: post_b) = [EndOfSnapshot; Upsert (xres [98] [117;50] 2 2)] /\
+  glog (after_restore pre_b) (OWatch xq :: post_b) = [(3, Upsert (xres [98] [117;50] 2 2))] /\
+  last (outs (after_restore pre_b) (OWatch xq :: post_b)) OutOk = OutErr EWatchClosed.
+Proof. exact new_commit_delivered. Qed.
 Example C18_gap_watch_delivers :
   deliv 0 init demo = [Upsert (xres [97] [117;49] 2 2); EndOfSnapshot; Upsert (xres [97] [117;49] 3 3)].
 Proof. exact demo_deliv. Qed.
@@ -161,13 +170,13 @@ Print Assumptions C18_uid_mismatch_rejected.
 Print Assumptions C18_uid_stable.
 Print Assumptions C18_new_lifetime.
 Print Assumptions C18_stale_uid_powerless.
-Print Assumptions C18_watch_complete_ordered_refuted.
-Print Assumptions C18_watch_complete_ordered_refuted_skip.
-Print Assumptions C18_watch_complete_ordered_partial.
+Print Assumptions C18_watch_complete_ordered.
+Print Assumptions C18_watch_complete_ordered_from_init.
 Print Assumptions C18_delivered_committed.
 Print Assumptions C18_read_after_event.
 Print Assumptions C18_clean_init.
 Print Assumptions C18_vb_init.
 Print Assumptions C18_restore_clean.
-Print Assumptions C18_clean_after_restore.
+Print Assumptions C18_restore_drops_queued_batch.
+Print Assumptions C18_restore_then_commit_delivered.
 Print Assumptions C18_gap_watch_delivers.
